@@ -48,7 +48,7 @@ CLAIMED = {
     },
     "C10": {
         "technique": "Coq proof (iteration shape and containment from the safety invariant; exact growth of the slices for uniform requests) + correspondence + exactness predicate on uniform histories",
-        "text": "C10_iter_shape / C10_live_contained / C10_slices_disjoint; byte-exact clause: C10_uniform_alloc_exact / C10_uniform_reset / C10_uniform_history_exact / C10_exact_predicate (one alignment between MIN_ALIGN and 16, sizes multiples of it: every allocation grows the slices by exactly its size on every path and for every allocator answer). " + ARENA_TEXT + "Every fifth history of the driver is uniform and is checked with sp_iter_exact (slice bytes = bytes allocated since the last reset). C10_uniform_history_exact lifts this to every history of uniform allocations and resets from a fresh arena. Partial: failed initialisers inside uniform histories are decided by the driver and C11's rewind theorem.",
+        "text": "C10_iter_shape / C10_live_contained / C10_slices_disjoint; byte-exact clause: C10_uniform_alloc_exact / C10_uniform_reset / C10_uniform_history_exact / C10_exact_predicate (one alignment between MIN_ALIGN and 16, sizes multiples of it: every allocation grows the slices by exactly its size on every path and for every allocator answer). " + ARENA_TEXT + "Every fifth history of the driver is uniform and is checked with sp_iter_exact (slice bytes = bytes allocated since the last reset). C10_uniform_history_exact lifts this to every history of uniform allocations and resets from a fresh arena. Partial: failed initialisers inside uniform histories are decided by the driver and C11's rewind theorem. Source tie: C10_source_chunk_parts (the slice ChunkFooter::as_raw_parts reports, parsed from lib.rs on every run: finger and footer address minus finger) / C10_model_lists_source_parts / C10_source_frames (both iterators' next, their constructors: start at the current footer, stop at the sentinel, follow prev).",
         "design_ref": "DESIGN.md §6 C10",
     },
     "C11": {
@@ -115,7 +115,7 @@ CLAIMED = {
     },
     "C08": {
         "technique": "Coq proof (invariant by induction over operation histories) + model/implementation correspondence",
-        "text": "Theorems C08_accounting / C08_zero_when_nothing_held / C08_changes_only_on_acquire_release / C08_source_accounting are proved in Coq for every history of the arena model and every behaviour of the global allocator; the model is tied to /repo on every run by differential execution (extracted model vs. the real crate, debug and release, 5 MIN_ALIGNs) and the extracted spec predicate sp_accounting is evaluated on the implementation's own getters against the tracking allocator's ledger.",
+        "text": "Theorems C08_accounting / C08_zero_when_nothing_held / C08_changes_only_on_acquire_release / C08_source_accounting are proved in Coq for every history of the arena model and every behaviour of the global allocator; the model is tied to /repo on every run by differential execution (extracted model vs. the real crate, debug and release, 5 MIN_ALIGNs) and the extracted spec predicate sp_accounting is evaluated on the implementation's own getters against the tracking allocator's ledger. C08_source_metadata_frame (allocated_bytes_including_metadata counts the raw chunk iterator's items times the footer size).",
         "design_ref": "DESIGN.md §6 C08",
     },
 }
